@@ -86,6 +86,19 @@ def run(chk):
     run_scenarios(chk, 'corner configurations the test-suite excludes', cs, {'C03'},
                   nontrivial=lambda sc, o: True, dist=lambda sc, o: {'corner': ['max_active<chunk', 'threading+lifespan1', 'keep_alive+bar+join', 'empty input', 'setter between calls',
                                                                                 'apply+join', 'numpy+insights', 'lifespan+hooks+bar+join'][sc['corner']]})
+    # an input that never ends by itself, bounded by iterable_len alone (also when iterable_len falls exactly on a chunk boundary)
+    es = []
+    for _ in range(40 if chk.tier == 'quick' else 600):
+        c = rng.choice([1, 2, 3, 4, 2.5])
+        k = rng.randint(1, 6)
+        il = int(k * c) if rng.random() < .6 else rng.randint(1, 20)
+        es.append({'seed': rng.randint(0, 10 ** 6), 'pool': {'n_jobs': rng.choice([1, 2, 3]), 'start_method': rng.choice(['fork', 'threading'])}, 'max_steps': 150000,
+                   'ops': [{'op': rng.choice(['map', 'imap', 'imap_unordered', 'map_unordered']), 'n': il, 'input': 'gen', 'gen_endless': True, 'iterable_len': il,
+                            'chunk_size': c, 'elem': 'scalar', 'max_tasks_active': rng.choice([None, 2, 5])}], 'all_valid': True})
+        if es[-1]['ops'][0]['max_tasks_active'] is None:
+            es[-1]['ops'][0].pop('max_tasks_active')
+    run_scenarios(chk, 'an endless input bounded by iterable_len', es, {'C03', 'C01'}, nontrivial=lambda sc, o: True,
+                  dist=lambda sc, o: {'on_chunk_boundary': sc['ops'][0]['iterable_len'] % max(1, int(sc['ops'][0]['chunk_size'])) == 0, 'op': sc['ops'][0]['op']})
     fs = [gen.gen_fail_scenario(rng) for _ in range(150 if chk.tier == 'quick' else 3000)]
     for sc in fs:
         if rng.random() < .3:
